@@ -3,7 +3,7 @@
 import json, subprocess
 
 HOOK_COMMITS = ["e053b92", "db39081", "909497b", "a3ef4cc"]
-FIX_COMMITS = ["d1834d6", "696a10e", "54f6b98", "8cadbec", "1d570ec", "ada398b", "3cdf850", "86f4ed9", "cac2ae1", "749f9e1", "6852bbb", "79a1448", "10810c0", "76552f0", "f89c303", "e2f472c", "6328c42", "4d43097", "8176551", "dcae5d6", "ab8aba2"]
+FIX_COMMITS = ["d1834d6", "696a10e", "54f6b98", "8cadbec", "1d570ec", "ada398b", "3cdf850", "86f4ed9", "cac2ae1", "749f9e1", "6852bbb", "79a1448", "10810c0", "76552f0", "f89c303", "e2f472c", "6328c42", "4d43097", "8176551", "dcae5d6", "ab8aba2", "72a413a"]
 
 NOTE_COMMON = ("trusted base: tokio current-thread scheduler + paused clock, the simnet link, the refproto reference codec/model; "
                "interleavings explored at task-poll granularity on one thread; a clean batch is evidence, not proof")
@@ -21,6 +21,8 @@ CHECKS = {
             "deterministic simulation; exhaustive enumeration of transport cut points x fault kinds, seeded schedules per point"),
     "C07": ("exploration", "§4 C07", "two real chmux endpoints run 1-20 open/transfer/close cycles: ports opened through default connect vs accept (either cancelled part-way), connect_ext wait/no-wait vs inspect + accept/accept_from/reject/drop/hold, pending Connects dropped before/after sent/answer, port batches over open ports, client clones, spare port numbers; all handles are dropped in a drawn permutation with drawn pauses, in the last cycle together with clients and listeners of both sides; tiny port-number space so numbers are reused at once; oracle = both dispatchers return Ok at quiescence with the transport still open, wire port-lifetime model (no number reused before all four finish messages, open+requested ports <= max_ports, nothing sent for a finished port), allocator capacity at every quiescent point == max_ports - ports the wire model says are open or requested (released once finished and not before), live-task count back to its pre-cycle / pre-connection value",
             "deterministic simulation + fault injection (cancellation, drop orders); wire-trace port-lifetime model + allocator-capacity and live-task conservation oracles at quiescence"),
+    "C08": ("exploration", "§4 C08", "one real endpoint (listener actor drawing accept/reject/drop/hold, client actor, one actor per port: consuming / stalled / receiver dropped / both dropped, cancellable sends) against a scripted peer built on the reference codec: drawn Hello (version 2/3/4/255, chunk size and receive buffer 4..u32::MAX, connect queue 1..65535), 4-40 steps mixing valid traffic (opens, complete messages within credit and chunk size, answers, credit returns, finish/close) with 16 kinds of hostile frames (garbage, mutated and replayed frames, Data without payload, Data for unknown/freed/connecting/finished ports, chunk and credit overruns, huge / overflowing / bogus credits, unsolicited and duplicate answers, duplicate requests and request floods, port-batch bombs with duplicates, duplicate finishes, second Hello, Reset, ClientFinish/ListenerFinish, Goodbye followed by traffic, odd-but-legal frames); oracle = no panic (process panic hook, overflow checks on); while the endpoint stays up: cost delivered minus cost consumed per port <= advertised receive buffer (+ one partly assembled message for a consuming receiver), no chunk above the advertised size accepted, unanswered requests within the connect queues, no frame tolerated after which a correct endpoint must terminate; disjunction at quiescence: dispatcher ended => every local user (port actors, listener, pending and fresh connects) observed an error, nobody hangs, no orderly end-of-stream the peer never announced; else messages sent validly before a port was touched arrive intact in order and a fresh connect+echo exchange succeeds unless legitimately refused",
+            "deterministic simulation with a scripted hostile peer (grammar-generated valid prefix + mutation/injection/duplication/overrun faults); no-panic, bounded-memory and fail-or-still-works oracles against the peer's own reference model"),
     "C09": ("exploration", "§4 C09", "(i) every frame a real endpoint emits in real-real workloads is strictly decoded and canonically re-encoded by an independent reference codec frozen from the v3 layout; (ii) coverage driver + completeness self-test: every message kind and flag combination must be observed; (iii) real endpoint against the scripted reference peer speaking v3 and v2 with boundary Hello values, junk before Hello, id-less OpenPort/PortData, credit and chunk discipline, label echo over ports opened in both directions; (iv) Connect::io through an independent length-prefix parser that re-chunks the byte stream",
             "deterministic simulation; reference-codec differential oracle + scripted reference peer (refinement of the frozen layout)"),
     "C10": ("exploration", "§4 C10", "1-3 client actors issue default connect(), connect_ext(wait/no-wait, PortReq ids), cancelled connects and Connect::sent()+marker message; a listener actor draws accept / inspect+accept / accept_from / reject / reject(no_ports) / drop per request, with cancelled accepts; max_ports 2-8, connect_queue 1-4, every Cfg::ports_exhausted policy; oracle = no request pending at quiescence, client outcome equals the listener's recorded decision per request id, accepted pairs echo their own label on both legs, a request reported as sent is obtainable from the listener before later data arrives, unanswered OpenPort frames never exceed the advertised connect queue (wire monitor), exhaustion policy clause",
